@@ -51,6 +51,9 @@ CHECKS = {
  "C11": ("model_checking", "For every (query, tree) of a bounded family (single patterns, all ordered two-pattern combinations, predicate queries; stmts and jsonish trees, valid and erroneous) every cursor configuration is enumerated: capture stream vs match stream, EVERY byte and point range (intersecting and containing variants), cursor reuse histories, max start depths, match limits 1/2/3/4/8 with the exceeded flag, remove_match at every capture position, and the Rust iterators against our own evaluation of the text predicates with contiguous and chunked text providers.",
          "Capture order asserted on start bytes; with quantifiers captures are compared as sets. Two known findings tied to the wildcard-root optimisation.",
          "bounded-exhaustive enumeration of (query, tree, cursor configuration) with cross-view consistency oracles", "DESIGN.md §2 C11"),
+ "C17": ("model_checking", "Bounded-exhaustive enumeration of sources (seeds, all strings of <=k lexemes, all strings of <=4 adversarial byte atoms incl. CR/CRLF/NUL/invalid UTF-8) for four highlighter configurations (highlights+locals; injection plain / include-children / combined) x three recognised-name lists with one reused Highlighter; the event stream is checked for contiguous exact coverage, balanced non-nesting highlights that coincide with leaf nodes, containment of injected highlights in injection content, local references highlighted like their definitions (own scope walk), and the HTML renderer's output against the source under the documented normalisations.",
+         "Highlight-to-language attribution needs the full recognised-name list (variant 0). Runs of U+FFFD compared collapsed. One known finding (extra newline).",
+         "bounded-exhaustive input enumeration with event-stream invariants and reference scope resolution", "DESIGN.md §2 C17"),
 }
 REASON_WIP = "check not built yet (work in progress; see DESIGN.md build order)"
 def main():
